@@ -94,6 +94,7 @@ class Lockstep:
         fname = c.name
         args, st0 = self.initial_state(real_def)
         self.real_def = real_def
+        self.dead_real, self.dead_spec = dead_locals(real_def), dead_locals(spec_def)
         pre = self.preconditions(args, st0)
         st0.conds.extend(pre)
         ex = Exec(self.ctx, "real", fname)
@@ -386,6 +387,8 @@ class Lockstep:
                         vs = ex.loc_by_key(ks).get(so.st)
                         if kr in rec.cin:
                             matched.add(kr)
+                            if ks.startswith("local:") and ks[6:] in ls.dead_spec and kr.startswith("local:") and kr[6:] in ls.dead_real:
+                                continue         # iteration variables that are never read outside the loops binding them: no observer
                             vr = ex.loc_by_key(kr).get(ro.st)
                             ls.ob(lname + "/step/carried:" + kr.split(":", 1)[1][-30:], hyps, values_equal(vr, vs), info)
                         elif not ks.startswith("local:"):
@@ -413,6 +416,41 @@ class Lockstep:
 
 # ---------------------------------------------------------------------------------------------------------------------
 _shared = {}
+
+
+def dead_locals(fdef):
+    """locals every read of which sits in the body of a `for` (or in a comprehension) that binds them as its target: whatever value they
+    hold between iterations or after the loop is never observed"""
+    if fdef is None:
+        return set()
+    loads, covered = {}, {}
+    for n in ast.walk(fdef):
+        if isinstance(n, ast.Name) and isinstance(n.ctx, ast.Load):
+            loads[n.id] = loads.get(n.id, 0) + 1
+
+    def binders(t):
+        return {m.id for m in ast.walk(t) if isinstance(m, ast.Name)}
+    def count(region, names):
+        for m in ast.walk(region):
+            if isinstance(m, ast.Name) and isinstance(m.ctx, ast.Load) and m.id in names:
+                covered.setdefault(m.id, set()).add(id(m))
+    for n in ast.walk(fdef):
+        if isinstance(n, ast.For):
+            for b in n.body:
+                count(b, binders(n.target))
+        elif isinstance(n, (ast.ListComp, ast.SetComp, ast.GeneratorExp, ast.DictComp)):
+            names = set()
+            for k, g in enumerate(n.generators):
+                names |= binders(g.target)
+                for c in g.ifs:
+                    count(c, names)
+                for g2 in n.generators[k + 1:]:
+                    count(g2.iter, names)
+            for part in ([n.key, n.value] if isinstance(n, ast.DictComp) else [n.elt]):
+                count(part, names)
+    params = {a.arg for a in fdef.args.args}
+    return {nm for nm, c in loads.items() if nm not in params and len(covered.get(nm, ())) == c} | \
+           {m.id for n in ast.walk(fdef) if isinstance(n, ast.For) for m in ast.walk(n.target) if isinstance(m, ast.Name) and m.id not in loads and m.id not in params}
 
 
 def solve(ctx, ob, timeout_ms=10000):
